@@ -1,7 +1,696 @@
 package main
 
-import "os"
+// T-mon stream `inject`: the REAL webhook path (Webhook.inject = injectRequired + injectPod, through
+// the verif hook) applied once and twice to pod fixtures and generated pods; the pods before /
+// after are reduced to a canonical line form which the Lean monitors (preservesB, idempotentB)
+// judge.  The oracle judges the same runs directly on the Go objects.
+//
+// ops (written by gen, self-contained):
+//	case <n> inject
+//	fixture <setting> <file> <docIndex>          a document of pkg/kube/inject/testdata/inject/<file>
+//	pod <setting> <namespace> <pod-json>         a literal pod
+//
+// trace (written by exec, read by the Lean driver): per case
+//	case <n> inject
+//	src ...                                      the op line, for the record
+//	begin orig|once|twice ; c/i/v/m/inj lines ; end
+//	status injected|skipped|error|unloadable
+//	check                                        <- the Lean driver answers with its verdict here
 
-func genInject(seed uint64, n int, out string) { os.Exit(2) }
-func execInject(in, out string)               { os.Exit(2) }
-func oracleInject(in, out string)             { os.Exit(2) }
+import (
+	"crypto/sha1"
+	"encoding/hex"
+	"encoding/json"
+	"fmt"
+	"os"
+	"path/filepath"
+	"reflect"
+	"sort"
+	"strings"
+
+	jsonpatch "github.com/evanphx/json-patch/v5"
+	openshiftv1 "github.com/openshift/api/apps/v1"
+	appsv1 "k8s.io/api/apps/v1"
+	batchv1 "k8s.io/api/batch/v1"
+	corev1 "k8s.io/api/core/v1"
+	metav1 "k8s.io/apimachinery/pkg/apis/meta/v1"
+	"k8s.io/apimachinery/pkg/runtime"
+	"k8s.io/apimachinery/pkg/runtime/schema"
+	"sigs.k8s.io/yaml"
+
+	"istio.io/api/annotation"
+	meshconfig "istio.io/api/mesh/v1alpha1"
+	"istio.io/istio/operator/pkg/render"
+	"istio.io/istio/pilot/pkg/features"
+	"istio.io/istio/pkg/config/mesh"
+	"istio.io/istio/pkg/config/schema/gvk"
+	"istio.io/istio/pkg/kube"
+	"istio.io/istio/pkg/kube/inject"
+	"verifharness/internal/quiet"
+	"verifharness/internal/wire"
+)
+
+func repoDir() string {
+	if d := os.Getenv("VERIF_REPO"); d != "" {
+		return d
+	}
+	return "/repo"
+}
+
+func fixtureDir() string { return filepath.Join(repoDir(), "pkg/kube/inject/testdata/inject") }
+
+// ---------------------------------------------------------------- settings (injector configurations)
+
+type setting struct {
+	name   string
+	flags  []string
+	files  []string // IstioOperator files under testdata/inject (extra templates)
+	native bool
+}
+
+var settings = []setting{
+	{name: "default"},
+	{name: "hold", flags: []string{"values.global.proxy.holdApplicationUntilProxyStarts=true"}},
+	{name: "cni", flags: []string{"components.cni.enabled=true"}},
+	{name: "native", native: true},
+	{name: "noprobe", flags: []string{"values.sidecarInjectorWebhook.rewriteAppHTTPProbe=false"}},
+	{name: "custom", files: []string{"custom-template.iop.yaml"}},
+	{name: "spire", files: []string{"spire-template.iop.yaml"}},
+}
+
+type loaded struct {
+	wh     *inject.Webhook
+	native bool
+}
+
+var loadedSettings = map[string]*loaded{}
+
+// loadSetting renders the charts of the repository with the operator (as the package's own tests
+// do) and builds a Webhook from the resulting injector ConfigMap.
+func loadSetting(name string) (*loaded, error) {
+	if l, ok := loadedSettings[name]; ok {
+		return l, nil
+	}
+	var st *setting
+	for i := range settings {
+		if settings[i].name == name {
+			st = &settings[i]
+		}
+	}
+	if st == nil {
+		return nil, fmt.Errorf("unknown setting %q", name)
+	}
+	flags := append(append([]string{}, st.flags...), "installPackagePath="+filepath.Join(repoDir(), "manifests"), "profile=empty", "components.pilot.enabled=true")
+	var files []string
+	for _, f := range st.files {
+		files = append(files, filepath.Join(fixtureDir(), f))
+	}
+	manifests, _, err := render.GenerateManifest(files, flags, false, nil, nil)
+	quiet.Silence()
+	if err != nil {
+		return nil, err
+	}
+	var cfg *inject.Config
+	var vc inject.ValuesConfig
+	var mc *meshconfig.MeshConfig
+	for _, object := range manifests {
+		for _, o := range object.Manifests {
+			if o.GetName() == "istio-sidecar-injector" && o.GetKind() == gvk.ConfigMap.Kind {
+				data, _ := o.Object["data"].(map[string]any)
+				rawConfig, _ := data["config"].(string)
+				vs, _ := data["values"].(string)
+				v, err := inject.NewValuesConfig(vs)
+				if err != nil {
+					return nil, err
+				}
+				vc = v
+				c, err := inject.UnmarshalConfig([]byte(rawConfig))
+				if err != nil {
+					return nil, err
+				}
+				cfg = &c
+			} else if o.GetName() == "istio" && o.GetKind() == gvk.ConfigMap.Kind {
+				data, _ := o.Object["data"].(map[string]any)
+				meshdata, _ := data["mesh"].(string)
+				m, err := mesh.ApplyMeshConfig(meshdata, mesh.DefaultMeshConfig())
+				if err != nil {
+					return nil, err
+				}
+				mc = m
+			}
+		}
+	}
+	if cfg == nil || mc == nil {
+		return nil, fmt.Errorf("injector or mesh ConfigMap not rendered")
+	}
+	l := &loaded{wh: inject.VerifNewWebhook(cfg, vc, mc, "default"), native: st.native}
+	loadedSettings[name] = l
+	return l, nil
+}
+
+// ---------------------------------------------------------------- fixtures -> pods (as webhook_test.go objectToPod)
+
+func simulateOwnerRef(m metav1.ObjectMeta, name string, k schema.GroupVersionKind) metav1.ObjectMeta {
+	controller := true
+	m.GenerateName = name
+	m.OwnerReferences = []metav1.OwnerReference{{APIVersion: k.GroupVersion().String(), Kind: k.Kind, Name: name, Controller: &controller}}
+	return m
+}
+
+func objectToPod(obj runtime.Object) *corev1.Pod {
+	k := obj.GetObjectKind().GroupVersionKind()
+	conv := func(template corev1.PodTemplateSpec, name string) *corev1.Pod {
+		template.ObjectMeta = simulateOwnerRef(template.ObjectMeta, name, k)
+		return &corev1.Pod{ObjectMeta: template.ObjectMeta, Spec: template.Spec}
+	}
+	switch o := obj.(type) {
+	case *corev1.Pod:
+		return o
+	case *batchv1.CronJob:
+		o.Spec.JobTemplate.Spec.Template.ObjectMeta = simulateOwnerRef(o.Spec.JobTemplate.Spec.Template.ObjectMeta, o.Name, k)
+		return &corev1.Pod{ObjectMeta: o.Spec.JobTemplate.Spec.Template.ObjectMeta, Spec: o.Spec.JobTemplate.Spec.Template.Spec}
+	case *appsv1.DaemonSet:
+		return conv(o.Spec.Template, o.Name)
+	case *appsv1.ReplicaSet:
+		return conv(o.Spec.Template, o.Name)
+	case *corev1.ReplicationController:
+		return conv(*o.Spec.Template, o.Name)
+	case *appsv1.StatefulSet:
+		return conv(o.Spec.Template, o.Name)
+	case *batchv1.Job:
+		return conv(o.Spec.Template, o.Name)
+	case *openshiftv1.DeploymentConfig:
+		return conv(*o.Spec.Template, o.Name)
+	case *appsv1.Deployment:
+		rs := schema.GroupVersionKind{Kind: "ReplicaSet", Group: "apps", Version: "v1"}
+		o.Spec.Template.ObjectMeta = simulateOwnerRef(o.Spec.Template.ObjectMeta, o.Name+"-fake", rs)
+		o.Spec.Template.ObjectMeta.GenerateName += "-"
+		if o.Spec.Template.ObjectMeta.Labels == nil {
+			o.Spec.Template.ObjectMeta.Labels = map[string]string{}
+		}
+		o.Spec.Template.ObjectMeta.Labels["pod-template-hash"] = "fake"
+		return &corev1.Pod{ObjectMeta: o.Spec.Template.ObjectMeta, Spec: o.Spec.Template.Spec}
+	}
+	return nil
+}
+
+func injectableDocs(doc string) []string {
+	m := map[string]any{}
+	if err := yaml.Unmarshal([]byte(doc), &m); err != nil {
+		return nil
+	}
+	switch m["kind"] {
+	case "Deployment", "DeploymentConfig", "DaemonSet", "StatefulSet", "Job", "ReplicaSet", "ReplicationController", "CronJob", "Pod":
+		return []string{doc}
+	case "List":
+		var out []string
+		list := metav1.List{}
+		if err := yaml.Unmarshal([]byte(doc), &list); err != nil {
+			return nil
+		}
+		for _, i := range list.Items {
+			iout, err := yaml.Marshal(i)
+			if err != nil {
+				continue
+			}
+			out = append(out, injectableDocs(string(iout))...)
+		}
+		return out
+	}
+	return nil
+}
+
+func fixtureDocs(file string) []string {
+	b, err := os.ReadFile(filepath.Join(fixtureDir(), file))
+	if err != nil {
+		return nil
+	}
+	var out []string
+	for _, part := range strings.Split(string(b), "\n---") {
+		out = append(out, injectableDocs(part)...)
+	}
+	return out
+}
+
+func fixtureFiles() []string {
+	ents, err := os.ReadDir(fixtureDir())
+	if err != nil {
+		return nil
+	}
+	var out []string
+	for _, e := range ents {
+		n := e.Name()
+		if strings.HasSuffix(n, ".yaml") && !strings.HasSuffix(n, ".iop.yaml") {
+			out = append(out, n)
+		}
+	}
+	sort.Strings(out)
+	return out
+}
+
+func fixturePod(file string, doc int) (*corev1.Pod, string, error) {
+	docs := fixtureDocs(file)
+	if doc >= len(docs) {
+		return nil, "", fmt.Errorf("no document %d in %s", doc, file)
+	}
+	obj, err := inject.FromRawToObject([]byte(docs[doc]))
+	if err != nil {
+		return nil, "", err
+	}
+	pod := objectToPod(obj)
+	if pod == nil {
+		return nil, "", fmt.Errorf("unsupported kind")
+	}
+	// request namespace = namespace of the top-level object, as in the package's runWebhook
+	var meta struct {
+		Metadata struct {
+			Namespace string `json:"namespace"`
+		} `json:"metadata"`
+	}
+	_ = yaml.Unmarshal([]byte(docs[doc]), &meta)
+	return pod, meta.Metadata.Namespace, nil
+}
+
+// ---------------------------------------------------------------- running the real path
+
+type run struct {
+	status            string // injected | skipped | error | unloadable
+	detail            string
+	orig, once, twice *corev1.Pod
+	origJSON          []byte
+	onceJSON          []byte
+	twiceJSON         []byte
+}
+
+func admit(l *loaded, podJSON []byte, ns string) (patched []byte, status string, detail string) {
+	defer func() {
+		if e := recover(); e != nil {
+			patched, status, detail = nil, "crash", fmt.Sprint(e)
+		}
+	}()
+	prev := features.EnableNativeSidecars
+	if l.native {
+		features.EnableNativeSidecars = features.NativeSidecarModeEnabled
+	} else {
+		features.EnableNativeSidecars = features.NativeSidecarModeDisabled
+	}
+	defer func() { features.EnableNativeSidecars = prev }()
+	resp := l.wh.VerifInject(&kube.AdmissionReview{Request: &kube.AdmissionRequest{
+		Object: runtime.RawExtension{Raw: podJSON}, Namespace: ns,
+	}}, "")
+	if resp == nil {
+		return nil, "error", "nil response"
+	}
+	if resp.Result != nil && resp.Result.Message != "" {
+		return nil, "error", resp.Result.Message
+	}
+	if resp.Patch == nil {
+		return podJSON, "skipped", ""
+	}
+	p, err := jsonpatch.DecodePatch(resp.Patch)
+	if err != nil {
+		return nil, "error", "patch does not decode: " + err.Error()
+	}
+	out, err := p.Apply(podJSON)
+	if err != nil {
+		return nil, "error", "patch does not apply: " + err.Error()
+	}
+	return out, "injected", ""
+}
+
+func runPod(settingName string, pod *corev1.Pod, ns string) *run {
+	r := &run{orig: pod}
+	l, err := loadSetting(settingName)
+	if err != nil {
+		r.status, r.detail = "unloadable", err.Error()
+		return r
+	}
+	r.origJSON, err = json.Marshal(pod)
+	if err != nil {
+		r.status, r.detail = "unloadable", err.Error()
+		return r
+	}
+	// normalise orig through JSON so that all three pods went through the same decoding
+	r.orig = &corev1.Pod{}
+	if err := json.Unmarshal(r.origJSON, r.orig); err != nil {
+		r.status, r.detail = "unloadable", err.Error()
+		return r
+	}
+	onceJSON, st, detail := admit(l, r.origJSON, ns)
+	r.status, r.detail = st, detail
+	if st == "error" || st == "crash" {
+		return r
+	}
+	r.onceJSON = onceJSON
+	r.once = &corev1.Pod{}
+	if err := json.Unmarshal(onceJSON, r.once); err != nil {
+		r.status, r.detail = "error", "patched pod does not decode: "+err.Error()
+		return r
+	}
+	twiceJSON, st2, detail2 := admit(l, onceJSON, ns)
+	if st2 == "error" || st2 == "crash" {
+		r.status, r.detail = st2+"-on-reinjection", detail2
+		return r
+	}
+	r.twiceJSON = twiceJSON
+	r.twice = &corev1.Pod{}
+	if err := json.Unmarshal(twiceJSON, r.twice); err != nil {
+		r.status, r.detail = "error-on-reinjection", err.Error()
+		return r
+	}
+	return r
+}
+
+func runOp(toks []string) *run {
+	switch toks[0] {
+	case "fixture":
+		if len(toks) != 4 {
+			return &run{status: "unloadable", detail: "bad op"}
+		}
+		doc := 0
+		fmt.Sscan(toks[3], &doc)
+		pod, ns, err := fixturePod(wire.Dec(toks[2]), doc)
+		if err != nil {
+			return &run{status: "unloadable", detail: err.Error()}
+		}
+		return runPod(toks[1], pod, ns)
+	case "pod":
+		if len(toks) != 4 {
+			return &run{status: "unloadable", detail: "bad op"}
+		}
+		pod := &corev1.Pod{}
+		if err := json.Unmarshal([]byte(wire.Dec(toks[3])), pod); err != nil {
+			return &run{status: "unloadable", detail: err.Error()}
+		}
+		return runPod(toks[1], pod, wire.Dec(toks[2]))
+	}
+	return &run{status: "unloadable", detail: "unknown op"}
+}
+
+// ---------------------------------------------------------------- reduction to the monitor's line form
+
+func digest(v any) string {
+	b, err := json.Marshal(v)
+	if err != nil {
+		return "unmarshalable"
+	}
+	h := sha1.Sum(b)
+	return hex.EncodeToString(h[:8])
+}
+
+func portToks(c corev1.Container) []string {
+	var out []string
+	for _, p := range c.Ports {
+		out = append(out, fmt.Sprintf("%s/%d/%s/%d/%s", p.Name, p.ContainerPort, p.Protocol, p.HostPort, p.HostIP))
+	}
+	return out
+}
+
+func statusOf(pod *corev1.Pod) *inject.SidecarInjectionStatus {
+	v, ok := pod.Annotations[annotation.SidecarStatus.Name]
+	if !ok {
+		return nil
+	}
+	var s inject.SidecarInjectionStatus
+	if err := json.Unmarshal([]byte(v), &s); err != nil {
+		return nil
+	}
+	return &s
+}
+
+func writePod(o *wire.Out, which string, pod *corev1.Pod) {
+	o.Line("begin", which)
+	ctr := func(tag string, c corev1.Container) {
+		o.Line(tag, wire.Enc(c.Name), wire.Enc(c.Image), wire.EncList(c.Command), wire.EncList(c.Args), wire.EncList(portToks(c)), digest(c))
+	}
+	for _, c := range pod.Spec.Containers {
+		ctr("c", c)
+	}
+	for _, c := range pod.Spec.InitContainers {
+		ctr("i", c)
+	}
+	for _, v := range pod.Spec.Volumes {
+		o.Line("v", wire.Enc(v.Name), digest(v))
+	}
+	rest := pod.Spec.DeepCopy()
+	rest.Containers, rest.InitContainers, rest.Volumes = nil, nil, nil
+	o.Line("m", digest(pod.ObjectMeta), digest(rest))
+	if s := statusOf(pod); s != nil {
+		o.Line("inj", wire.EncList(s.Containers), wire.EncList(s.InitContainers), wire.EncList(s.Volumes))
+	} else {
+		o.Line("inj", "-", "-", "-")
+	}
+	o.Line("end")
+}
+
+func execInject(in, out string) {
+	o := wire.Create(out)
+	defer o.Close()
+	for _, toks := range wire.ReadLines(in) {
+		if toks[0] == "case" {
+			o.Line(toks...)
+			continue
+		}
+		r := runOp(toks)
+		src := toks
+		if toks[0] == "pod" && len(toks) == 4 {
+			src = []string{"pod", toks[1], toks[2], "json:" + digest(toks[3])}
+		}
+		o.Line(append([]string{"src"}, src...)...)
+		if r.orig != nil && r.status != "unloadable" {
+			writePod(o, "orig", r.orig)
+		}
+		if r.once != nil {
+			writePod(o, "once", r.once)
+		}
+		if r.twice != nil {
+			writePod(o, "twice", r.twice)
+		}
+		o.Line("status", r.status, wire.Enc(truncate(r.detail, 200)))
+		o.Line("check")
+		o.Flush()
+	}
+}
+
+func truncate(s string, n int) string {
+	if len(s) > n {
+		return s[:n]
+	}
+	return s
+}
+
+// ---------------------------------------------------------------- oracle (directly on the Go objects)
+
+func names(l []string) map[string]bool {
+	m := map[string]bool{}
+	for _, s := range l {
+		m[s] = true
+	}
+	return m
+}
+
+// keptContainers: every container of `before` that the injector does not own must occur in
+// `after`, in the same relative order, with image, command, args and ports unchanged.
+func keptContainers(before, after []corev1.Container, owned map[string]bool) string {
+	j := 0
+	for _, b := range before {
+		if owned[b.Name] {
+			continue
+		}
+		found := false
+		for ; j < len(after); j++ {
+			a := after[j]
+			if a.Name == b.Name {
+				if a.Image != b.Image || !reflect.DeepEqual(nz(a.Command), nz(b.Command)) || !reflect.DeepEqual(nz(a.Args), nz(b.Args)) ||
+					!reflect.DeepEqual(portToks(a), portToks(b)) {
+					return "changed:" + b.Name
+				}
+				found = true
+				j++
+				break
+			}
+		}
+		if !found {
+			return "lost-or-reordered:" + b.Name
+		}
+	}
+	return ""
+}
+
+func nz(l []string) []string {
+	if len(l) == 0 {
+		return nil
+	}
+	return l
+}
+
+func keptVolumes(before, after []corev1.Volume, owned map[string]bool) string {
+	j := 0
+	for _, b := range before {
+		if owned[b.Name] {
+			continue
+		}
+		found := false
+		for ; j < len(after); j++ {
+			if after[j].Name == b.Name {
+				if !reflect.DeepEqual(after[j], b) {
+					return "changed:" + b.Name
+				}
+				found = true
+				j++
+				break
+			}
+		}
+		if !found {
+			return "lost-or-reordered:" + b.Name
+		}
+	}
+	return ""
+}
+
+// reserved are the container names the injector owns (a container of that name in the user's pod is a
+// customisation of the injected one, which is merged, not preserved).
+var reserved = []string{inject.ProxyContainerName, inject.InitContainerName, inject.ValidationContainerName, inject.EnableCoreDumpName}
+
+func preserved(tag string, before, after *corev1.Pod) string {
+	s := statusOf(after)
+	if s == nil {
+		return "FAIL " + tag + "-no-status-annotation"
+	}
+	owned := names(reserved)
+	if d := keptContainers(before.Spec.Containers, after.Spec.Containers, owned); d != "" {
+		return "FAIL " + tag + "-containers " + wire.Enc(d)
+	}
+	if d := keptContainers(before.Spec.InitContainers, after.Spec.InitContainers, owned); d != "" {
+		return "FAIL " + tag + "-inits " + wire.Enc(d)
+	}
+	// a user volume with the name of an injected volume is merged with it
+	if d := keptVolumes(before.Spec.Volumes, after.Spec.Volumes, names(s.Volumes)); d != "" {
+		return "FAIL " + tag + "-volumes " + wire.Enc(d)
+	}
+	return ""
+}
+
+func verdictOf(r *run) string {
+	switch r.status {
+	case "unloadable":
+		return "OK unloadable"
+	case "error":
+		return "OK rejected" // the injector refused the pod (invalid annotations, unknown template, ...): nothing was changed
+	case "crash":
+		return "FAIL crash " + wire.Enc(truncate(r.detail, 120))
+	case "error-on-reinjection", "crash-on-reinjection":
+		return "FAIL reinjection-errors " + wire.Enc(truncate(r.detail, 120))
+	case "skipped":
+		if !jsonEqual(r.origJSON, r.onceJSON) {
+			return "FAIL skipped-but-changed"
+		}
+		return "OK skipped"
+	}
+	if v := preserved("preserve-once", r.orig, r.once); v != "" {
+		return v
+	}
+	if v := preserved("preserve-twice", r.orig, r.twice); v != "" {
+		return v
+	}
+	if !jsonEqual(r.onceJSON, r.twiceJSON) {
+		return "FAIL idempotent " + wire.Enc(firstDiff(r.onceJSON, r.twiceJSON))
+	}
+	return "OK injected"
+}
+
+func jsonEqual(a, b []byte) bool {
+	var x, y any
+	if json.Unmarshal(a, &x) != nil || json.Unmarshal(b, &y) != nil {
+		return false
+	}
+	return reflect.DeepEqual(x, y)
+}
+
+// firstDiff names the first JSON path at which two documents differ.
+func firstDiff(a, b []byte) string {
+	var x, y any
+	_ = json.Unmarshal(a, &x)
+	_ = json.Unmarshal(b, &y)
+	return diffPath("", x, y)
+}
+
+func diffPath(path string, x, y any) string {
+	if reflect.DeepEqual(x, y) {
+		return ""
+	}
+	switch xv := x.(type) {
+	case map[string]any:
+		yv, ok := y.(map[string]any)
+		if !ok {
+			return path
+		}
+		keys := map[string]bool{}
+		for k := range xv {
+			keys[k] = true
+		}
+		for k := range yv {
+			keys[k] = true
+		}
+		var ks []string
+		for k := range keys {
+			ks = append(ks, k)
+		}
+		sort.Strings(ks)
+		for _, k := range ks {
+			if d := diffPath(path+"/"+k, xv[k], yv[k]); d != "" {
+				return d
+			}
+		}
+	case []any:
+		yv, ok := y.([]any)
+		if !ok {
+			return path
+		}
+		for i := 0; i < len(xv) && i < len(yv); i++ {
+			if d := diffPath(fmt.Sprintf("%s/%d", path, i), xv[i], yv[i]); d != "" {
+				return d
+			}
+		}
+		return fmt.Sprintf("%s(len %d vs %d)", path, len(xv), len(yv))
+	}
+	return fmt.Sprintf("%s: %v != %v", path, truncate(fmt.Sprint(x), 60), truncate(fmt.Sprint(y), 60))
+}
+
+func oracleInject(in, out string) {
+	o := wire.Create(out)
+	defer o.Close()
+	pendingCase := false
+	for _, toks := range wire.ReadLines(in) {
+		if toks[0] == "case" {
+			if pendingCase {
+				o.Line("OK empty")
+			}
+			pendingCase = true
+			continue
+		}
+		if !pendingCase {
+			continue
+		}
+		pendingCase = false
+		o.Line(verdictOf(runOp(toks)))
+		o.Flush()
+	}
+	if pendingCase {
+		o.Line("OK empty")
+	}
+}
+
+func dumpInject(in string) {
+	for _, toks := range wire.ReadLines(in) {
+		if toks[0] == "case" {
+			continue
+		}
+		r := runOp(toks)
+		fmt.Println(r.status, r.detail, verdictOf(r))
+		_ = os.WriteFile("orig.json", r.origJSON, 0o644)
+		_ = os.WriteFile("once.json", r.onceJSON, 0o644)
+		_ = os.WriteFile("twice.json", r.twiceJSON, 0o644)
+		return
+	}
+}
